@@ -1,6 +1,6 @@
 (* C12 Cancel and Force requests take effect exactly as offered (node level). Statements only. *)
 From Coq Require Import ZArith List Bool Arith.
-From OP Require Import lib.Obs model.Interp model.InterpRun model.C12 proofs.Interp_inv proofs.C05_proofs proofs.Interp_fields proofs.C02_proofs proofs.C12_proofs.
+From OP Require Import lib.Obs model.Interp model.InterpRun model.C12 proofs.Interp_inv proofs.C05_proofs proofs.Interp_fields proofs.C02_proofs proofs.C12_proofs proofs.Interp_stack proofs.C02_order proofs.C04_order proofs.C12_runs.
 Import ListNotations.
 Open Scope Z_scope.
 
@@ -56,6 +56,32 @@ Theorem C12_forced_watch_activates : forall e s n,
   exists s', try_activate e s n = Some s' /\ activated (st s' n) = true.
 Proof. exact forced_activates. Qed.
 Print Assumptions C12_forced_watch_activates.
+
+(* Over whole runs WITH requests (the run function of model/C12.v: the command completions of the tick, then its cancel /
+   force requests, then the tick; `rstates` lists the state after every tick and `C12_run_states_are_the_observed_states`
+   ties it to the views the correspondence compares with the real interpreter).
+   `from_then P Q l`: from the first state of l in which P holds on, Q holds in that state and in every later one. *)
+Theorem C12_run_states_are_the_observed_states : forall p fl ts main s now,
+  map (fun v => v_nodes (tv_view v)) (run_ticks p fl main s now ts) = map nodes (rstates p fl main s now ts).
+Proof. exact run_ticks_nodes. Qed.
+Print Assumptions C12_run_states_are_the_observed_states.
+(* a line outside Alarm / Macro bodies that is cancelled while not activated stays cancelled and never becomes activated:
+   no later request is carried out on it (not even force), no tick activates it, whatever its condition does *)
+Theorem C12_cancelled_before_activation_is_never_activated : forall p fl ts q, under_alarm p q = false ->
+  forall main s now, from_then (dead q) (dead q) (rstates p fl main s now ts).
+Proof. exact cancelled_unactivated_stays. Qed.
+Print Assumptions C12_cancelled_before_activation_is_never_activated.
+(* "a cancelled Watch never runs its body": in EVERY run with ANY cancel / force requests at any ticks, from the state in
+   which a Watch (outside Alarm / Macro bodies) is cancelled and not activated on, no line of its body is started -- in that
+   state and in every later one. (Stack invariant of C04 -- a body line starts only under an activated Watch -- carried
+   through the requests, with the theorem above.) *)
+Theorem C12_a_watch_cancelled_before_activation_never_runs_its_body : forall p fl ts q,
+  wf_b p = true -> n_kind (nd p q) = KWatch -> C02_order.plain p q = true ->
+  from_then (dead q)
+            (fun s => forall c, n_parent (nd p c) = Some q -> C02_order.plain p c = true -> started (st s c) = false)
+            (rstates p fl [FVisit 0] (InterpRun.init p) 0 ts).
+Proof. exact cancelled_watch_body_never_starts. Qed.
+Print Assumptions C12_a_watch_cancelled_before_activation_never_runs_its_body.
 
 (* PARTIAL (node level). Not modelled: the run-log items themselves (what the run log offers is an oracle of the model,
    observed per request), the command manager's side of a cancelled UOD command (finalized: proved under C11), and the
